@@ -5,6 +5,8 @@ declspec / specdecl : one line = built-in type keywords separated by blanks (C s
 layout / speclayout : one line = a type in prefix syntax
      T ::= p <ty_name> | e | ptr | a <len> T | f T | s <packed 0|1> <aligned n|-> <k> M*k | u <packed> <aligned> <k> M*k
      M ::= m <alignas n (0 = none)> <bit width|-> <named 0|1> T   |   M <bit width|-> <named 0|1> Ta T     (`_Alignas(Ta)`)
+         | G <k> A*k <bit width|-> <named 0|1> T      with A ::= c <n> | t T     (k `_Alignas` specifiers in source order)
+  var / specvar     : one line = `<k> A*k T` : alignment of an object declared `_Alignas(..)* T x;`  answer `ok <align>`
   answer `ok <size> <align>` followed, for struct/union, by ` | <offset> <bit_offset>` per member
   (speclayout: ` | <first bit> <unit offset> <bit in unit>`), or `fail divzero`, or `bad-op`.
 -/
@@ -45,6 +47,17 @@ mutual
       let (ms, r') ← parseMembers k r
       pure (.union (p == "1") al ms, r')
     | _ => none
+  partial def parseAligns : Nat → List String → Option (Aligns × List String)
+    | 0, r => some (.nil, r)
+    | k+1, "c" :: n :: r => do
+      let n ← n.toInt?
+      let (rest, r') ← parseAligns k r
+      pure (.const n rest, r')
+    | k+1, "t" :: r => do
+      let (t, r1) ← parseTy r
+      let (rest, r') ← parseAligns k r1
+      pure (.type t rest, r')
+    | _, _ => none
   partial def parseMembers : Nat → List String → Option (Members × List String)
     | 0, r => some (.nil, r)
     | k+1, "m" :: aa :: w :: nm :: r => do
@@ -52,13 +65,23 @@ mutual
       let w ← optInt w
       let (t, r') ← parseTy r
       let (rest, r'') ← parseMembers k r'
-      pure (.cons { alignas := aa, bitWidth := w, named := nm == "1" } t rest, r'')
+      pure (.cons { bitWidth := w, named := nm == "1" } (if aa = 0 then .nil else .const aa .nil) t rest, r'')
     | k+1, "M" :: w :: nm :: r => do
       let w ← optInt w
       let (ta, r1) ← parseTy r
       let (t, r') ← parseTy r1
       let (rest, r'') ← parseMembers k r'
-      pure (.consT { alignas := 0, bitWidth := w, named := nm == "1" } ta t rest, r'')
+      pure (.cons { bitWidth := w, named := nm == "1" } (.type ta .nil) t rest, r'')
+    | k+1, "G" :: n :: r => do
+      let n ← n.toNat?
+      let (as, r0) ← parseAligns n r
+      match r0 with
+      | w :: nm :: r1 => do
+        let w ← optInt w
+        let (t, r') ← parseTy r1
+        let (rest, r'') ← parseMembers k r'
+        pure (.cons { bitWidth := w, named := nm == "1" } as t rest, r'')
+      | _ => none
     | _, _ => none
 end
 
@@ -104,6 +127,24 @@ def speclayoutLine (line : String) : String :=
     showSpecLayout (ChibiVerif.Spec.Layout.specTy t)
   | _ => "bad-op"
 
+def varLine (spec : Bool) (line : String) : String :=
+  match words line with
+  | n :: r =>
+    match n.toNat? with
+    | none => "bad-op"
+    | some n =>
+      match parseAligns n r with
+      | some (as, r1) =>
+        match parseTy r1 with
+        | some (t, []) =>
+          if spec then s!"ok {ChibiVerif.Spec.Layout.specVarAlign as t}"
+          else match varAlign as t with
+            | .ok a => s!"ok {a}"
+            | .error .divByZero => "fail divzero"
+        | _ => "bad-op"
+      | none => "bad-op"
+  | _ => "bad-op"
+
 def layoutMain (sub : String) : IO UInt32 := do
   let h ← IO.getStdin
   match sub with
@@ -111,6 +152,8 @@ def layoutMain (sub : String) : IO UInt32 := do
   | "specdecl" => lineLoop h specdeclLine
   | "layout" => lineLoop h layoutLine
   | "speclayout" => lineLoop h speclayoutLine
-  | _ => IO.eprintln "usage: drv_c08 declspec|specdecl|layout|speclayout"; return 2
+  | "var" => lineLoop h (varLine false)
+  | "specvar" => lineLoop h (varLine true)
+  | _ => IO.eprintln "usage: drv_c08 declspec|specdecl|layout|speclayout|var|specvar"; return 2
 
 end ChibiVerif.Driver
